@@ -8,6 +8,7 @@ from __future__ import annotations
 from typing import TYPE_CHECKING, Generator, cast
 
 from exabgp.bgp.message import Message, Update
+from exabgp.bgp.message.update.collection import UpdateCollection
 from exabgp.environment import getenv
 from exabgp.logger import lazyformat, lazymsg, log
 from exabgp.reactor.peer.handlers.base import MessageHandler
@@ -73,9 +74,11 @@ class UpdateHandler(MessageHandler):
 
         Stores all NLRIs in the incoming RIB cache.
         """
-        if getattr(message, 'IS_EOR', False) is True:
+        if getattr(message, 'IS_EOR', False) is True or isinstance(message, UpdateCollection):
             # an End-of-RIB marker is an UPDATE (same TYPE) which carries no route and has no parsed data:
-            # reading .data raised AttributeError and every session was reset when its peer sent the marker
+            # reading .data raised AttributeError and every session was reset when its peer sent the marker.
+            # The same goes for the placeholder Protocol.read_message() returns instead of decoding an UPDATE
+            # nobody wants to see (adj-rib-in false, no API process asking for it): an empty UpdateCollection
             self._number += 1
             return
         update = cast(Update, message)
@@ -115,9 +118,11 @@ class UpdateHandler(MessageHandler):
 
         Same logic as sync - no async I/O needed for inbound processing.
         """
-        if getattr(message, 'IS_EOR', False) is True:
+        if getattr(message, 'IS_EOR', False) is True or isinstance(message, UpdateCollection):
             # an End-of-RIB marker is an UPDATE (same TYPE) which carries no route and has no parsed data:
-            # reading .data raised AttributeError and every session was reset when its peer sent the marker
+            # reading .data raised AttributeError and every session was reset when its peer sent the marker.
+            # The same goes for the placeholder Protocol.read_message() returns instead of decoding an UPDATE
+            # nobody wants to see (adj-rib-in false, no API process asking for it): an empty UpdateCollection
             self._number += 1
             return
         update = cast(Update, message)
